@@ -309,6 +309,72 @@ def _dict_at(d, path):
     return d
 
 
+CHAIN_CONFIGS = ("constructor", "assigned", "assigned-list", "extended", "reordered", "subclass", "subclass-extended")
+
+
+def build_chain(members, config, perm=None):
+    """A ChainedVisitor whose LIVE `visitors` attribute ends up being `members` (in that order), configured through
+    the constructor or by assigning / extending / re-ordering the documented `visitors` attribute afterwards."""
+    _v = V()
+    members = list(members)
+    if config == "constructor":
+        return _v.ChainedVisitor(*members)
+    if config == "assigned":
+        c = _v.ChainedVisitor()
+        c.visitors = tuple(members)
+        return c
+    if config == "assigned-list":
+        c = _v.ChainedVisitor(members[-1])
+        c.visitors = list(members)
+        return c
+    if config == "extended":
+        c = _v.ChainedVisitor(*members[:1])
+        c.visitors = tuple(c.visitors) + tuple(members[1:])
+        return c
+    if config == "reordered":
+        perm = perm if perm is not None else list(range(len(members)))[::-1]
+        c = _v.ChainedVisitor(*[members[i] for i in perm])     # constructed in another order …
+        c.visitors = tuple(members)                              # … then put in the final order
+        return c
+
+    class Sub(_v.ChainedVisitor):
+        def __init__(self, *vs):
+            super().__init__()
+            self.visitors = tuple(vs)
+    if config == "subclass":
+        return Sub(*members)
+    if config == "subclass-extended":
+        c = Sub(*members[:-1])
+        c.visitors = c.visitors + (members[-1],)
+        return c
+    raise AssertionError(config)
+
+
+def check_chain_configured(ctx, text, kw, fail, k, config, dispatching=False):
+    """enter in the order of the LIVE `visitors` list, leave in its reverse, around every node"""
+    _v = V()
+    base_cls = _v.DispatchingVisitor if dispatching else _v.ASTVisitor
+    doc = parse_doc(text, kw)
+    before = doc.to_dict()
+    trace = []
+    chain = build_chain([make_recorder(base_cls, t, trace) for t in range(k)], config)
+    res = chain.visit(doc)
+    ctx.count()
+    single = []
+    make_recorder(_v.ASTVisitor, 0, single).visit(parse_doc(text, kw))
+    exp = []
+    for e in single:
+        tags = range(k) if e[-2] == "enter" else range(k - 1, -1, -1)
+        exp += [(t,) + key(e) for t in tags]
+    got = [(e[0],) + key(e) for e in trace]
+    if got != exp or res is not doc or doc.to_dict() != before:
+        ent = [g for g in got if g[1] == "enter"] == [x for x in exp if x[1] == "enter"]
+        cause = "leave-order" if ent and sorted(got) == sorted(exp) else ("members-not-left" if ent else "enter-order")
+        fail("chain:order:visitors-reassigned:%s" % cause,
+             "a chain whose `visitors` attribute was %s after construction does not enter in the order of the live list / leave in its reverse (%s)" % (config, cause),
+             {"chain": k, "config": config})
+
+
 def check_chain(ctx, text, kw, fail, k, positions, dispatching=False):
     """chains of k members: order; effect of member j's delete / replace / skip at the sampled positions"""
     _v = V()
